@@ -417,13 +417,15 @@ def build_model(case):
     from pmutt.omkm.reaction import BEP, SurfaceReaction
     from pmutt.omkm.units import Units
 
-    def mk(d, **kw):
+    def mk(d, phase=None, **kw):
         th = dict(d['th'])
         th['name'] = d['name']
         th['elements'] = dict(d['elements'])
-        th['phase'] = None
+        th['phase'] = phase
         return gen.build_species(th, **kw)
-    gas = [mk(g) for g in case['gas']]
+    # gas species are declared as such (they carry the pressure adjustment, so activation energies depend on P);
+    # the phase objects below then take the species over
+    gas = [mk(g, phase='gas') for g in case['gas']]
     ads = [mk(a, n_sites=a['n_sites']) for a in case['ads']]
     bulk = [mk({'name': 'PT(B)', 'elements': {'Pt': 1}, 'th': case['ads'][0]['th']})] if case['bulk'] else []
     beps = [BEP(slope=b['slope'], intercept=b['intercept'], name=b['name'], descriptor=b['descriptor'], direction=b['direction'])
